@@ -225,6 +225,7 @@ let rec print_value (b : Buffer.t) (v : Value.value) : unit =
   | Value.VDescribed (Value.DCode n, x) -> p ("Dc " ^ hex_of_n n ^ " "); print_value b x
 
 let rec nat_of_int (i : int) : Datatypes.nat = if i <= 0 then Datatypes.O else Datatypes.S (nat_of_int (i - 1))
+let rec int_of_nat (n : Datatypes.nat) : int = match n with Datatypes.O -> 0 | Datatypes.S m -> 1 + int_of_nat m
 
 let codec_enc (rest : string) : string =
   let (v, r) = parse_value (words rest) in
@@ -689,6 +690,58 @@ let sfr (rest : string) : string =
       (if toks = [] then "-" else Stdlib.String.concat "," toks) ^ " | " ^ acc
   | _ -> failwith "sfr: form"
 
+(* ---------- ctlm: the controller side of transactions ---------- *)
+let ctlm (rest : string) : string =
+  let script = match Stdlib.String.index_opt rest '|' with
+    | Some i -> Stdlib.String.sub rest (i + 1) (Stdlib.String.length rest - i - 1) | None -> rest in
+  let ops = Stdlib.List.filter (fun w -> w <> []) (Stdlib.List.map words (Stdlib.String.split_on_char ';' script)) in
+  let conds = ["UnknownId"; "Rollback"; "Timeout"; "InternalError"] in
+  let cond_ix (c : string) : coq_N =
+    let rec go i = function [] -> failwith ("ctlm: condition " ^ c) | x :: r -> if x = c then n_of_int i else go (i + 1) r in go 0 conds in
+  let cond_name (n : coq_N) : string = Stdlib.List.nth conds (int_of_n n) in
+  let hexs (b : coq_N list) : string = Stdlib.String.concat "" (Stdlib.List.map (fun x -> Printf.sprintf "%02x" (int_of_n x)) b) in
+  let arg (a : string) : string = match Stdlib.String.index_opt a ':' with
+    | Some i -> Stdlib.String.sub a (i + 1) (Stdlib.String.length a - i - 1) | None -> "" in
+  let answer (a : string) : Controller.answer =
+    if a = "A" then Controller.AAccepted else if a = "L" then Controller.AOther
+    else if Stdlib.String.length a > 2 && Stdlib.String.sub a 0 2 = "D:" then Controller.ADeclared (bytes_of_hex (arg a))
+    else if Stdlib.String.length a > 2 && Stdlib.String.sub a 0 2 = "R:" then Controller.ARejected (cond_ix (arg a))
+    else failwith ("ctlm: answer " ^ a) in
+  let panswer (a : string) : Controller.panswer =
+    if a = "TA" then Controller.PTxAccepted
+    else if Stdlib.String.length a > 3 && Stdlib.String.sub a 0 3 = "TR:" then Controller.PTxRejected (cond_ix (arg a))
+    else if Stdlib.String.length a > 2 && Stdlib.String.sub a 0 2 = "R:" then Controller.PRejected (cond_ix (arg a))
+    else failwith ("ctlm: post answer " ^ a) in
+  let nat s = nat_of_int (int_of_string s) in
+  (* the prelude `ctl ; snd 1` is fixed: control link on handle 0, the sender on handle 1 *)
+  let (pre, body) = match ops with
+    | ["ctl"] :: ["snd"; "1"] :: r -> ("ok ; ok / A0c ; ok / A1s", r)
+    | _ -> failwith "ctlm: prelude" in
+  let cops = Stdlib.List.map (fun w -> match w with
+    | ["decl"; a] -> Controller.ODecl (answer a)
+    | ["post"; k; "1"; m; a] -> Controller.OPost (nat k, nat m, panswer a)
+    | ["commit"; k; a] -> Controller.OCommit (nat k, answer a)
+    | ["rollback"; k; a] -> Controller.ORollback (nat k, answer a)
+    | ["disch"; k; f; a] -> Controller.ODisch (nat k, f = "1", answer a)
+    | ["drop"; k] -> Controller.ODrop (nat k)
+    | _ -> failwith ("ctlm: op " ^ Stdlib.String.concat " " w)) body in
+  let (st, outs) = Controller.crun [] cops in
+  let wire_tok (x : Controller.cwire) : string = match x with
+    | Controller.WDecl -> "T0:decl"
+    | Controller.WPost (id, m) -> "T1:m" ^ string_of_int (int_of_nat m) ^ ":tx(" ^ hexs id ^ ":none)"
+    | Controller.WDisch (id, f) -> "T0:disch(" ^ hexs id ^ ":" ^ (if f then "1" else "0") ^ ")" in
+  let res_tok (r : Controller.cres) : string = match r with
+    | Controller.ROkId id -> "ok(" ^ hexs id ^ ")"
+    | Controller.ROk -> "ok"
+    | Controller.ROkAccepted -> "ok(acc)"
+    | Controller.ROkRejected c -> "ok(rej(" ^ cond_name c ^ "))"
+    | Controller.RRejected c -> "err(Rejected:" ^ cond_name c ^ ")"
+    | Controller.RIllegalState -> "err(IllegalDeliveryState)"
+    | Controller.RDropped -> "dropped"
+    | Controller.RSkip -> "skip" in
+  let steps = Stdlib.List.map (fun (w, r) -> res_tok r ^ " / " ^ Stdlib.String.concat "," (Stdlib.List.map wire_tok w)) outs in
+  Stdlib.String.concat " ; " (pre :: steps) ^ " # " ^ Stdlib.String.concat "," (Stdlib.List.map wire_tok (Controller.final_wire st))
+
 (* ---------- msg: the message codec at the level of sections ---------- *)
 let msg (rest : string) : string =
   let ws = words rest in
@@ -1097,6 +1150,7 @@ let dispatch (line : string) : string =
        | "comp" -> comp rest
        | "fdec" -> fdec rest
        | "sfr" -> sfr rest
+       | "ctlm" -> ctlm rest
        | "msg" -> msg rest
        | "enc" -> codec_enc rest
        | "dec" -> codec_dec rest
